@@ -34,6 +34,9 @@ var Requires = map[string][]string{
 	// "for any number of groups and names, up to the whole syscall table", "for programs of every size", "every jump is
 	// forward and in bounds": the label-level argument of E1 becomes a statement about the assembled program through C06
 	"C01": {"C06"},
+	// "all its conditions satisfied": what it means for one condition to be satisfied is C02 (seed C03j: the upper-half
+	// comparison dropped on 32-bit architectures for every operation but Equal)
+	"C03": {"C02"},
 	"C04": {"C06"},
 	"C05": {"C06"},
 	// ... and the kernel decides on the *numbers*: "the kernel's decisions equal the policy's" needs the table that turned
@@ -48,7 +51,9 @@ var Requires = map[string][]string{
 	// "the syscalls discovered in the binary": the set F the profiler starts from is what the extraction reports, and the
 	// list is made of the reported *names*; C16's "every reported syscall exists in the table under the reported name"
 	// is what makes F a set of syscalls of the binary (seed C18h: names looked up through a mis-sized index table)
-	"C18": {"C14", "C01", "C16"},
+	// ... and the extraction runs on the disassembly the cache hands out: "discovered in the binary" needs that text to be
+	// the complete disassembly of this binary (C17; seed C18j: a cache check that accepts an empty header)
+	"C18": {"C14", "C01", "C16", "C17"},
 }
 
 // RunSpec runs a property's rules and then the rules of the properties it requires (transitively), recording one
